@@ -86,7 +86,9 @@ def vsample(run):
 
 # ---- C11 ---------------------------------------------------------------------------------------------
 RANK_POOLS = {"int": [1, 2, 3], "float": [0.5, 1.5, float("nan")], "str": ["a", "b", ""], "date": POOLS["date"] + [np.datetime64("2021-01-01")],
-              "obj": [None, 1, 2]}
+              "obj": [None, 1, 2],
+              # strings of 50+ characters are ranked without the fixed-width shortcut of _optimize_for_argsort
+              "longstr": ["x" * 50 + "a", "x" * 50 + "b", ""]}
 
 
 def rank_vectors(maxlen):
@@ -114,7 +116,7 @@ def rank_driver(run):
     mlen = 5 if run.tier == "thorough" else 4
     run.bound = f"all vectors of <= {mlen} elements over 3-value pools with ties and missing values, kinds int/float/str/date/object; methods min, max, ordinal"
     for k, vals in run.inputs(rank_vectors(mlen)):
-        v = mkcol(k, dec(vals))
+        v = mkcol("str" if k == "longstr" else k, dec(vals))
         xs = list(v)
         n = len(xs)
         try:
